@@ -52,17 +52,27 @@ def as_dlms(payload: bytes):
     return DlmsMessage(payload)
 
 
-def as_readout(block: bytes):
-    """A real DataReadout whose data block is `block`, obtained through the real ModeDReader."""
-    from han.dlde import ModeDReader
+def as_readout(block: bytes, ident: bytes | None = None):
+    """A real DataReadout whose data block is `block`, obtained through the real ModeDReader.
+    `ident` is the identification line without line end (default /ABC5sim); when the reader does not
+    accept it as an identification line the DataReadout is built directly from the bytes."""
+    from han.dlde import DataReadout, ModeDReader
 
     if b"!" in block or b"/" in block:
         return None
-    text = b"/ABC5sim\r\n" + block + (b"" if block.endswith(b"\n") or not block else b"\r\n") + b"!\r\n"
+    head = ident if ident else b"/ABC5sim"
+    if b"!" in head or b"\n" in head or not head.startswith(b"/"):
+        return None
+    text = head + b"\r\n" + block + (b"" if block.endswith(b"\n") or not block else b"\r\n") + b"!\r\n"
     try:
         got = ModeDReader().read(text)
     except Exception:  # noqa: BLE001
         return None
     if len(got) != 1:
+        if ident:
+            try:
+                return DataReadout(text)  # "built directly from bytes" - what a caller with its own framing would do
+            except Exception:  # noqa: BLE001
+                return None
         return None
     return got[0]
